@@ -928,3 +928,50 @@ def check_c04(chk, tier):
                 "catch_unwind and a 30 s watchdog in a build with overflow checks and a build without; TV_Totality accepts a run iff "
                 "every detector returned a set, and the two builds agree. Non-trivial = files longer than 200 bytes.")
     chk.assumptions = ["stack exhaustion beyond nesting depth 64 is outside the property"]
+
+
+# ---------------------------------------------------------------------------
+# C19 (composition over top-level items)
+# ---------------------------------------------------------------------------
+
+@prop("C19")
+def check_c19(chk, tier):
+    hb = vlib.build_harness("dev")
+    d = wdir("C19")
+    suffix = "quick" if tier == "quick" else "thorough"
+    r = vlib.tlc("MC_Compose", "MC_Compose.%s.cfg" % suffix, workers=8, timeout=3400, xmx="12g")
+    chk.add_tlc(r)
+    beh = r.records.get("REPLAY", [])
+    if len(beh) < 200:
+        raise ToolError("MC_Compose generated only %d files" % len(beh))
+    bpath = os.path.join(d, "behaviours.ndjson")
+    vlib.write_ndjson(bpath, beh)
+    corpus = prepare_corpus()
+    tpath = os.path.join(d, "trace.ndjson")
+    xpath = os.path.join(d, "texts.ndjson")
+    res = vlib.harness(hb, ["compose-record", corpus, bpath, "60" if tier == "quick" else "600", tpath, xpath], timeout=3400)
+    chk.add_harness(res, count_traces=False)
+    texts = vlib.read_ndjson(xpath)
+
+    def describe(rec, why):
+        return ("compose:%s" % why, "%s on %s: whole file %s, item by item %s" % (rec["detector"], rec["src"], rec["whole"], rec["parts"]),
+                {"detector": rec["detector"]})
+    rtv = trace_validate(chk, "TV_Compose", tpath, describe, timeout=3400)
+    chk.extra["compose_records_in_scope"] = int(rtv.get("exercised", 0))
+    if int(rtv.get("exercised", 0)) < 100:
+        raise ToolError("only %s composition records were in scope" % rtv.get("exercised"))
+    for v in chk.violations:
+        case = v["replay"]
+        i = case.get("trace_index")
+        if i and i <= len(texts):
+            case["source"] = texts[i - 1]["text"]
+    chk.exhaustive = True
+    chk.rule = ("TLC generates every ordered pair (thorough: every ordered triple) of top-level items from a pool of 15 items with "
+                "disjoint names (contracts with well / badly placed constructors, written / unwritten / immutable-candidate / "
+                "packable state variables, a library, an interface, a free function, a struct, a selfdestruct, a memory parameter, "
+                "naming violations, a file-level constant); every file, every corpus file with >= 2 items and random concatenations "
+                "of corpus files are analysed whole and with all but one item replaced by spaces (line feeds and pragmas kept) by all "
+                "detectors except the two SafeMath ones; TV_Compose checks on the projected tree that the items do not mention each "
+                "other's state variables and accepts iff whole = union of the parts. Non-trivial = records whose whole-file result "
+                "is non-empty.")
+    chk.assumptions = ["a top-level item's extent is the span of its subtree plus a directly following ';'"]
